@@ -461,6 +461,11 @@ def main():
         "all sequences of <=2 tokens over the full alphabet x all separators x all endings; all 3-token sequences over a "
         "reduced alphabet" + ("; 3-token sequences over the medium alphabet with all separators; 4-token sequences over a small alphabet" if thorough else "")
     ) if exhaustive_ok else "incomplete"
+    if run.tier == "thorough":
+        # one more workload for the contracts: the repository's own test-suite (hand-written inputs)
+        from vf import repo_tests
+
+        repo_tests.attach(run, PID)
     run.finish(floors={
         "evaluations": 20000,
         "distinct_nontrivial": 10000,
